@@ -31,14 +31,14 @@ class ClientModel:
         """per path: clock reads in order, identified leaves, canonical atoms"""
         reads = []
         for ef in p.effects:
-            if ef['kind'] == 'call' and 'clock_gettime' in ef['callee']:
+            if ef['kind'] == 'call' and common.is_clock_read(ef['callee']):
                 cid = ef['args'][0][1] if ef['args'] and psi.is_int_const(ef['args'][0]) else None
                 reads.append((cid, ef))
         info = {'path': p, 'reads': reads, 'real': None, 'mono': None, 'atoms': [], 'stored': None,
                 'drift_ok': None}
         # leaves: the Ok payload of each read
         for n, ef in enumerate(p.effects):
-            if ef['kind'] == 'call' and 'clock_gettime' in ef['callee']:
+            if ef['kind'] == 'call' and common.is_clock_read(ef['callee']):
                 cid = ef['args'][0][1] if ef['args'] and psi.is_int_const(ef['args'][0]) else None
                 leaf = payload(T('call', ef['callee'], n, *ef['args']), 'Ok')
                 if cid == common.CLOCK_REALTIME and info['real'] is None:
@@ -48,7 +48,7 @@ class ClientModel:
         for c in p.conds:
             info['atoms'] += common.time_atoms(c)
             term, op, val, _ = c
-            if term[0] == 't' and term[1] == 'discr' and fmt(term[2][0]).endswith('clock_status') and op == '==':
+            if term[0] == 't' and term[1] == 'discr' and term[2][0] == self.leaf_self('clock_status') and op == '==':
                 info['stored'] = val
         # the stored statuses this path is taken for: every value of the record's status discriminant that falsifies none
         # of the path's conditions (covers `match`, `==` on the enum, `!=`, guards ...)
@@ -63,7 +63,8 @@ class ClientModel:
         return info
 
     def leaf_self(self, field):
-        return T('field', T('deref', ('sym', 'self')), field)
+        """the record field with that role in the published layout (named by offset, see common.abi_names)"""
+        return T('field', T('deref', ('sym', 'self')), common.abi_names(self.fb)['rec'].get(field, field))
 
     def age_unit(self, info):
         """age = mono - as_of as a {leaf: coeff} dict"""
